@@ -6,6 +6,14 @@ sys.path.insert(0, HERE)
 import contracts.props as props
 
 ALL = [json.loads(l)["id"] for l in open(os.path.join(HERE, "properties.jsonl"))]
+# properties whose evidence reports bounded checks although the fragment has no `bounded` list
+BOUNDED_ANYWAY = set()
+for _pid in ALL:
+    try:
+        if json.load(open(os.path.join(HERE, "evidence", f"{_pid}.json")))["coverage"].get("bounded_checks", {}).get("total"):
+            BOUNDED_ANYWAY.add(_pid)
+    except Exception:
+        pass
 checks = []
 for pid in ALL:
     spec = props.PROPERTIES.get(pid)
@@ -16,13 +24,13 @@ for pid in ALL:
     checks.append(dict(
         property_id=pid,
         engine="pyvc",
-        technique=spec.get("technique", "contract-based deductive verification: sidecar contracts on the real functions, VCs generated from /repo's AST by symbolic execution, discharged by z3 (cvc5 on unknown); counter-models replayed on the real code"),
+        technique=spec.get("technique", "contract-based deductive verification: sidecar contracts on the real functions, VCs generated from /repo's AST by symbolic execution, discharged by z3 (cvc5 on unknown); counter-models replayed on the real code") + ("; contracts with a stated input bound and run-time stand-ins on the real code are reported as bounded checks, separately from the discharged obligations, and never counted as proved" if spec.get("bounded") or pid in BOUNDED_ANYWAY else ""),
         quick_cmd=f"./check {pid} --tier quick",
         thorough_cmd=f"./check {pid} --tier thorough",
         replay_cmd_template=f"./check {pid} --replay {{path}}",
         evidence_file=f"evidence/{pid}.json",
         level_claimed=dict(category=spec["level"], text=spec["claim"], design_ref=f"DESIGN.md section 5 {pid}"),
-        level_note=spec["note"],
+        level_note=spec["note"] + (" | bounded parts (never counted as proved): " + "; ".join(spec["bounded"]) if spec.get("bounded") else ""),
     ))
 na = [dict(property_id=pid, reason=props.NOT_APPLICABLE.get(pid, "no contract set built yet for this property in this round; not claimed")) for pid in ALL if pid not in {c["property_id"] for c in checks}]
 man = dict(
